@@ -151,6 +151,7 @@ PROPS["C02"] = dict(
         R("C02.concurrent_send", "kechan", "TestC02ConcurrentSend", 40, 3000, shrink=5, quick=dict(checks=40, shards=2, timeout=600)),
         R("C02.swarm_burst", "swarms", "TestC02SwarmBurst", 120, 12000, quick=dict(shards=2, timeout=600)),
         R("C02.concurrent_duplicate_deliveries", "kechan", "TestC02ConcurrentDuplicates", 120, 6000, quick=dict(shards=4, timeout=600)),
+        R("C02.refused_peer_data", "kechan", "TestC02RefusedPeerData", 80, 4000, shrink=6, qto=600, tto=3000, quick=dict(checks=80, shards=4, timeout=600)),
     ],
 )
 
